@@ -50,8 +50,7 @@ def settingsJ (s : Settings) : Json := Json.mkObj [
   ("sort_by", optJ Json.str s.sortBy),
   ("verbose", s.verbose),
   ("timing_stats", optJ Json.str s.timingStats),
-  ("color", s.color),
-  ("load_ill_typed", s.loadIllTyped)]
+  ("color", s.color)]
 
 def toSettings (j : Json) : Settings := {
   ignore := (arr j "ignore").map toClsf
@@ -71,7 +70,7 @@ def toFileOutcome (j : Json) : FileOutcome :=
   | "ok" => .ok (tomlTable (obj j "doc"))
   | "notFound" => .notFound
   | "isDir" => .isDir
-  | "foreign" => .foreign (str j "kind")
+  | "invalid" => .invalid (str j "msg")
   | _ => .crash (str j "kind")
 
 def toCheckSel (j : Json) : CheckSel :=
